@@ -11,6 +11,7 @@ mod enc;
 mod vcd;
 mod fstw;
 mod hier;
+mod detect;
 
 fn dispatch(cmd: &str, args: &[&str]) -> String {
     match cmd {
@@ -19,6 +20,8 @@ fn dispatch(cmd: &str, args: &[&str]) -> String {
         "body" => vcd::run_body(args),
         "fstw" => fstw::run(args),
         "hier" => hier::run(args),
+        "detect" => detect::run(args),
+        "detectc" => detect::run_cursor(args),
         "vcd" => vcd::run_vcd(args),
         _ => "UNSUPPORTED".to_string(),
     }
